@@ -243,6 +243,9 @@ func aggregate(results []*JobResult) *Agg {
 		for s, g := range r.Viols {
 			if h, ok := a.Viols[s]; ok {
 				h.Count += g.Count
+				if len(h.More) < 4 {
+					h.More = append(h.More, g.First)
+				}
 			} else {
 				cp := *g
 				a.Viols[s] = &cp
@@ -453,7 +456,7 @@ func cmdRun(args []string) int {
 				fmt.Printf("UNCONFIRMED property=%s sig=%s (%d paths): found by the engine's monitor / under a non-default schedule, not reproduced natively: %v\n", *prop, s, g.Count, entry["native_outcome"])
 				continue
 			}
-		} else if !confirms(c, r) {
+		} else if !confirms(c, r) && !retryOthers(nat, g, &c, &r) {
 			nUnconfirmed++
 			entry["status"] = "ENCODING-MISMATCH"
 			violOut = append(violOut, entry)
@@ -472,6 +475,9 @@ func cmdRun(args []string) int {
 			entry["status"] = "known-finding"
 			violOut = append(violOut, entry)
 			continue
+		}
+		if _, indirect := entry["native_demonstration"]; !indirect {
+			entry["native_outcome"] = r.Outcome
 		}
 		nViol++
 		os.MkdirAll(replayDir, 0o755)
@@ -616,6 +622,23 @@ func firstLine(s string) string {
 }
 
 func round2(f float64) float64 { return float64(int(f*100+0.5)) / 100 }
+
+// retryOthers replays further instances of a violation signature (found by
+// other jobs) when the first one does not reproduce natively.
+func retryOthers(nat *Native, g *ViolGroup, c *ReplayCase, r *NativeResult) bool {
+	for _, alt := range g.More {
+		alt.ID = 0
+		res, err := nat.Run([]ReplayCase{alt})
+		if err != nil {
+			return false
+		}
+		if confirms(alt, res[0]) {
+			*c, *r = alt, res[0]
+			return true
+		}
+	}
+	return false
+}
 
 // confirmIndirect handles violations that cannot be reproduced by feeding
 // the model to the same harness natively: map iteration orders (the runtime
